@@ -42,6 +42,8 @@ func runReqScenario(c *Ctx, cfg reqScenarioCfg) {
 	callKind := map[int]string{}
 	recvFor := map[int]uint32{}
 	txTimes := map[uint32][]time.Time{}
+	issuedAt := map[uint32]time.Time{}
+	quietAt := map[uint32]time.Time{} // when the observation of the operation that finished a request (answered / cancelled) was complete
 	armLB := map[uint32]time.Time{} // earliest moment the latest transmission of a request can have been scheduled (its retry timer armed)
 	lastTxPipe := map[uint32]int{}
 	lostAt := map[uint32]time.Time{} // when the pipe carrying the latest copy was lost
@@ -64,8 +66,10 @@ func runReqScenario(c *Ctx, cfg reqScenarioCfg) {
 		now := time.Now()
 		evs := splitEvents(lastObs(e))
 		// connection losses first: a re-send caused by the loss is listed before it in the observation
+		closedNow := map[int]bool{}
 		for _, ev := range evs {
 			if ev.kind == "closed" {
+				closedNow[ev.pipe] = true
 				rmFromList(ev.pipe)
 				for id, p := range lastTxPipe {
 					if p == ev.pipe && done[id] == "" {
@@ -120,7 +124,11 @@ func runReqScenario(c *Ctx, cfg reqScenarioCfg) {
 				if want, ok := payloadOf[id]; !ok || string(want) != string(ev.msg) {
 					c.Violate(fmt.Sprintf("REQ: transmission of request %#x carries body %x; the request was %x (retransmissions must be byte-identical)", id, ev.msg, want), e.Replay())
 				}
-				if why, fin := done[id]; fin && !fromRelease {
+				// "never after completion": a transmission handed to a pipe's sender goroutine just before the request was
+				// finished reaches the pipe a moment later (the goroutine cannot be called back), and a retry timer may fire
+				// between two operations; only a transmission that reaches a pipe after the system was seen quiescent *after*
+				// the finishing operation is one that the finished request caused
+				if why, fin := done[id]; fin && !fromRelease && !quietAt[id].IsZero() && now.After(quietAt[id]) {
 					c.Violate(fmt.Sprintf("REQ: request %#x was transmitted again after it had been %s", id, why), e.Replay())
 				}
 				// "never before the retry time": the retry timer is armed when the scheduler hands the request to a pipe's
@@ -140,6 +148,12 @@ func runReqScenario(c *Ctx, cfg reqScenarioCfg) {
 					} else {
 						armLB[id] = e.prevObsEnd
 					}
+				} else if fromRelease {
+					// a transmission that was parked inside a held pipe: it was scheduled at some earlier moment — no earlier
+					// than the previous one (the bound stays where it was), or, for the first one, than the request was issued
+					if len(txTimes[id]) == 0 {
+						armLB[id] = issuedAt[id]
+					}
 				} else {
 					armLB[id] = e.prevObsEnd
 				}
@@ -149,6 +163,10 @@ func runReqScenario(c *Ctx, cfg reqScenarioCfg) {
 				delete(lostAt, id)
 				txTimes[id] = append(txTimes[id], now)
 				lastTxPipe[id] = ev.pipe
+				if closedNow[ev.pipe] {
+					// handed to a connection that is lost within this very observation: what follows is the re-send the loss causes
+					lostAt[id] = now
+				}
 			case "ret":
 				cx, ok := callCtx[ev.call]
 				if !ok {
@@ -195,6 +213,13 @@ func runReqScenario(c *Ctx, cfg reqScenarioCfg) {
 				}
 			}
 		}
+		// requests finished by (or before) the operation just observed: the system was quiescent at the end of that
+		// observation, after they were finished
+		for id := range done {
+			if quietAt[id].IsZero() {
+				quietAt[id] = e.obsEnd
+			}
+		}
 	}
 	addPipe := func() {
 		next++
@@ -211,6 +236,7 @@ func runReqScenario(c *Ctx, cfg reqScenarioCfg) {
 		}
 		k := uint32(e.nsent+1) | 0x80000000
 		payloadOf[k] = body
+		issuedAt[k] = time.Now() // the request cannot be scheduled before it exists
 		id := e.Send(cx, nil, body)
 		callCtx[id], callKind[id] = cx, "send"
 		sendReq[id] = k
